@@ -144,3 +144,8 @@ def special_poses():
         out.append(("half-turn %s" % (ax,), rq.axang2q(np.array(ax, float), np.pi)))
     out.append(("identity", np.array([1.0, 0, 0, 0])))
     return out
+
+
+def spell(word, k):
+    """a case variant of an option string the library compares case-insensitively (method names, frames)"""
+    return [word, word.upper(), word.capitalize(), word.lower(), word.swapcase()][int(k) % 5]
